@@ -55,6 +55,10 @@ KNOWN = [
     ("C13", "abort-memory-exhaustion-in-tera-range",
      "--output-template '{{ range(end=5, step_by=0) }}' never ends and '{% for i in range(end=10000000000) %}' materialises the whole range: Tera's built-in range "
      "allocates until the process is killed (observed as an allocation-failure abort under the harness's 8 GiB address-space ceiling)"),
+    ("C02", "nested-annotated-tag-not-seen",
+     "a version tag that is an annotated tag of another annotated tag (`git tag -a -m inner inner HEAD; git tag -a -m outer v3.0.0 inner`) is not found: "
+     "`git tag --points-at <commit>` peels one level only, `git describe --tags` finds it; zerv answers exactly as if the tag did not exist "
+     "(no small patch: tag discovery would have to change to a fully peeling listing such as `git show-ref --tags -d`)"),
     ("C04", "flow-hash-len10-overflow",
      "zerv flow --hash-branch-len 10 fails for every branch whose 10-digit hash exceeds 2^32-1 (e.g. branches a, d, dev, master): "
      "'Failed to parse NNNNNNNNNN: number too large to fit in target type' - the documented length 10 does not work for ~57% of branch names"),
